@@ -1,2 +1,133 @@
-(* C06 -- Cluster metadata is a deterministic, restart-stable state machine. (theorems follow) *)
-From LB Require Import Base.Prelude Meta.Groups Meta.Fsm.
+(* C06 -- Cluster metadata is a deterministic, restart-stable state machine. *)
+From LB Require Import Base.Prelude Meta.Groups Meta.Fsm Meta.FsmProofs.
+From Coq Require Import Permutation.
+Open Scope Z_scope.
+
+(* Same committed sequence, same metadata: apply is a function of the state, the operation and
+   its Raft index and of nothing else (that the Go code is, is what the correspondence check
+   compares two servers for after every operation). *)
+Theorem C06_same_log_same_metadata : forall v r idx c ops a b,
+  run_core v r idx c ops = Some a -> run_core v r idx c ops = Some b -> a = b.
+Proof. intros v r idx c ops a b Ha Hb. rewrite Ha in Hb. injection Hb as <-. reflexivity. Qed.
+Print Assumptions C06_same_log_same_metadata.
+
+(* A server that replays the whole log (every operation as a recovered entry) and then finishes
+   recovery has exactly the metadata of the servers that applied the log live -- streams,
+   partitions, replicas, ISR, leaders, epochs, paused and read-only flags, consumer groups,
+   coordinators, epochs, members and assignments -- for every sequence of operations that the
+   metadata leader's precondition checks let through. *)
+Theorem C06_replay_rebuilds_live_state : forall ops L,
+  valid_run fixed 1 empty_core ops = true ->
+  run_core fixed false 1 empty_core ops = Some L ->
+  exists P, run_core fixed true 1 empty_core ops = Some P /\ finish_core (N.of_nat (length ops)) P = L.
+Proof. exact replay_from_scratch. Qed.
+Print Assumptions C06_replay_rebuilds_live_state.
+
+(* Every snapshot-plus-replay split: a snapshot taken after any i operations (its group members
+   listed in any order, as Go's map iteration produces them), restored, followed by a replay of
+   the remaining operations and finishedRecovery, gives the live servers' streams and partitions
+   exactly and their groups with the same coordinators, epochs and members. *)
+Theorem C06_snapshot_plus_replay_rebuilds_live_state : forall ops i Li Ln sn,
+  (i <= length ops)%nat ->
+  valid_run fixed 1 empty_core ops = true ->
+  run_core fixed false 1 empty_core (firstn i ops) = Some Li ->
+  run_core fixed false 1 empty_core ops = Some Ln ->
+  snap_of sn Li ->
+  exists P, run_core fixed true (N.of_nat i + 1) (restore_core fixed sn) (skipn i ops) = Some P /\
+            core_eqv (finish_core (N.of_nat (length ops)) P) Ln.
+Proof. exact snapshot_restart. Qed.
+Print Assumptions C06_snapshot_plus_replay_rebuilds_live_state.
+
+(* Replay never deletes or replaces data of a stream that exists at the end of the log ... *)
+Theorem C06_replay_keeps_data : forall ops idx m0 P e s g,
+  run fixed true idx m0 ops = Some P -> WF (mt_streams P) -> alive (mt_streams P) s ->
+  alookup s (mt_disk m0) = Some g -> g <> 0%N -> alookup s (mt_disk (finish e P)) = Some g.
+Proof. exact replay_keeps_data. Qed.
+Print Assumptions C06_replay_keeps_data.
+
+(* ... and never leaves the directory of a stream that does not exist at the end, when the
+   directories found at the restart are those of a server that had applied a prefix of the log. *)
+Theorem C06_replay_leaves_no_deleted_stream : forall ops idx m0 P e s,
+  run fixed true idx m0 ops = Some P -> WF (mt_streams P) -> covered (mt_disk m0) (mt_core m0) ops ->
+  alookup s (mt_disk (finish e P)) <> None -> alive (mt_streams P) s.
+Proof. exact replay_leaves_no_orphans. Qed.
+Print Assumptions C06_replay_leaves_no_deleted_stream.
+
+Theorem C06_prefix_disk_is_covered : forall ops i m Li Lm, (i <= m)%nat -> (m <= length ops)%nat ->
+  run fixed false 1 empty_meta (firstn i ops) = Some Li ->
+  run fixed false 1 empty_meta (firstn m ops) = Some Lm ->
+  covered (restore_disk (take_snapshot (mt_core Li)) (mt_disk Lm)) (restore_core fixed (take_snapshot (mt_core Li))) (skipn i ops).
+Proof. exact prefix_disk_covered. Qed.
+Print Assumptions C06_prefix_disk_is_covered.
+
+(* ---- the hypotheses are met by a history that does all of it ---- *)
+Definition n0 := 0%N. Definition n1 := 1%N. Definition n2 := 2%N. Definition n3 := 3%N.
+Definition demo : list fop :=
+  [FCreate n0 3 [n3]; FCreate n1 3 [n0; n1]; FGCreate n0 n0 n0 [n0; n1]; FPause n1 [] false; FDelete n0; FResume n1 [0; 1; 2];
+   FJoin n0 n1 [n1]; FReadonly n1 [1] true; FShrink n1 0 n1; FCreate n0 2 [n2]; FLeader n1 1 n1; FLeave n0 n0; FExpand n1 0 n1; FDelete n1].
+
+Example C06_demo_is_valid :
+  valid_run fixed 1 empty_core demo = true /\
+  (exists L, run_core fixed false 1 empty_core demo = Some L /\
+             exists P, run_core fixed true 1 empty_core demo = Some P /\ P <> L /\ finish_core 14%N P = L).
+Proof.
+  split; [vm_compute; reflexivity|]. eexists. split; [vm_compute; reflexivity|]. eexists. split; [vm_compute; reflexivity|].
+  split; [intros H; vm_compute in H; discriminate|vm_compute; reflexivity].
+Qed.
+
+(* ---- the pinned code, refuted ---- *)
+Definition obs_flags (c : core) : list (sid * list (bool * bool)) :=
+  map (fun kv => (fst kv, map (fun p => (p_paused p, p_ro p)) (st_parts (snd kv)))) (c_streams c).
+
+(* (1) pause, resume, snapshot: the restored server pauses the partition again *)
+Theorem C06_refuted_resume_forgotten_by_snapshot :
+  let ops := [FCreate n1 1 [n0]; FPause n1 [] false; FResume n1 [0]] in
+  forall L, run_core pinned false 1 empty_core ops = Some L ->
+  obs_flags L = [(1%N, [(false, false)])] /\ obs_flags (restore_core pinned (take_snapshot L)) = [(1%N, [(true, false)])].
+Proof. intros ops L H. vm_compute in H. injection H as <-. vm_compute. split; reflexivity. Qed.
+Print Assumptions C06_refuted_resume_forgotten_by_snapshot.
+
+(* (2) read-only, snapshot: the restored partition is writable *)
+Theorem C06_refuted_readonly_lost_by_snapshot :
+  let ops := [FCreate n1 1 [n0]; FReadonly n1 [] true] in
+  forall L, run_core pinned false 1 empty_core ops = Some L ->
+  obs_flags L = [(1%N, [(false, true)])] /\ obs_flags (restore_core pinned (take_snapshot L)) = [(1%N, [(false, false)])].
+Proof. intros ops L H. vm_compute in H. injection H as <-. vm_compute. split; reflexivity. Qed.
+Print Assumptions C06_refuted_readonly_lost_by_snapshot.
+
+(* (3) a group over two streams, one of them deleted, a later join: live servers and a server that
+   replays the log end with different group epochs and different assignments *)
+Definition obs_groups (c : core) := map (fun kv => (fst kv, g_epoch (gr_g (snd kv)), g_owners (gr_g (snd kv)))) (c_groups c).
+Theorem C06_refuted_replayed_delete_not_told_to_groups :
+  let ops := [FCreate n0 3 [n3]; FCreate n1 3 [n0]; FGCreate n0 n0 n0 [n0; n1]; FDelete n0; FJoin n0 n1 [n1]; FCreate n2 1 [n1]] in
+  forall L P, run_core pinned false 1 empty_core ops = Some L -> run_core pinned true 1 empty_core ops = Some P ->
+  obs_groups L <> obs_groups (finish_core 6%N P).
+Proof. intros ops L P HL HP. vm_compute in HL, HP. injection HL as <-. injection HP as <-. vm_compute. discriminate. Qed.
+Print Assumptions C06_refuted_replayed_delete_not_told_to_groups.
+
+(* ---- open findings of the current code, as theorems about the faithful model ---- *)
+(* (4) the server stopped after create s; delete s and a second create s are replayed: the
+   re-created stream gets the directory with the first incarnation's data *)
+Theorem C06_refuted_deleted_data_comes_back :
+  let ops := [FCreate n2 1 [n0]; FDelete n2; FCreate n2 2 [n1]] in
+  forall m1 P, run fixed false 1 empty_meta (firstn 1 ops) = Some m1 ->
+  run fixed true 1 (mkMeta empty_core (mt_disk m1) 0%N) ops = Some P ->
+  alookup 2%N (mt_disk (finish 3%N P)) = Some 1%N      (* the data the first create made ... *)
+  /\ option_map (fun st => map p_epoch (st_parts st)) (alookup 2%N (mt_streams (finish 3%N P))) = Some [3%N; 3%N].   (* ... in the stream the third made *)
+Proof. intros ops m1 P H1 HP. vm_compute in H1. injection H1 as <-. vm_compute in HP. injection HP as <-. vm_compute. split; reflexivity. Qed.
+Print Assumptions C06_refuted_deleted_data_comes_back.
+
+(* (5) snapshots do not carry assignments: restoring with the members in another order (Go map
+   iteration) re-balances differently than the history did *)
+Theorem C06_refuted_assignments_after_restore :
+  let ops := [FCreate n0 3 [n1; n2]; FCreate n1 2 [n0]; FGCreate n0 n3 n2 [n0]; FJoin n0 n1 [n0; n1]] in
+  forall L, run_core fixed false 1 empty_core ops = Some L ->
+  let sn := take_snapshot L in
+  let sn' := mkSnap (sn_streams sn) (map (fun kv => (fst kv, mkSnapGroup (sg_coord (snd kv)) (sg_epoch (snd kv)) (rev (sg_members (snd kv))))) (sn_groups sn)) in
+  snap_of sn' L /\ obs_groups (restore_core fixed sn) = obs_groups L /\ obs_groups (restore_core fixed sn') <> obs_groups L.
+Proof.
+  intros ops L H. vm_compute in H. injection H as <-. cbv zeta. split; [|split; [vm_compute; reflexivity|vm_compute; discriminate]].
+  split; [reflexivity|]. vm_compute. constructor; [|constructor]. split; [reflexivity|split; [reflexivity|split; [reflexivity|]]].
+  cbn. apply perm_swap.
+Qed.
+Print Assumptions C06_refuted_assignments_after_restore.
